@@ -121,6 +121,7 @@ pub(super) fn split_path<T: DictionaryAccess + ?Sized>(
 
     let mut new_path = Vec::with_capacity(path.len() * 3 / 2);
     for node in path {
+        verif_point!("split_path:node");
         let split_len = node.num_splits(mode);
         if split_len <= 1 {
             new_path.push(node);
